@@ -37,7 +37,7 @@ def install_ids():
     """Deterministic node identities: numbered by creation order, permuted by the salt (harness-only patch)"""
     ensure_path()
     from adsg_core.graph.adsg_nodes import DSGNode
-    if _STATE['installed']:
+    if _STATE['installed'] or os.environ.get('VF_NATIVE_IDS'):
         return
 
     def update_node_id(self):
